@@ -4,12 +4,15 @@ import TinsModel.Crypto.LemmasWep
 import TinsModel.Crypto.LemmasSafety
 import TinsModel.Crypto.LemmasTkip
 import TinsModel.Crypto.LemmasHandshake
+import TinsModel.Crypto.LemmasKdf
+import TinsModel.Crypto.LemmasHistory
 /-
   Property C09 — WEP / TKIP / CCMP decryption recovers exactly the plaintext, safely.
   Theorems only (helper lemmas live in TinsModel/Crypto/Lemmas*.lean).
 
   Model  : TinsModel/Crypto/{Crc,RC4,Wep,Tkip,Ccmp,Wpa2,Frame}.lean  (code-shaped, src/crypto.cpp)
-  Spec   : TinsModel/Crypto/Spec.lean  (encapsulation / decapsulation written from IEEE 802.11)
+  Spec   : TinsModel/Crypto/Spec.lean  (encapsulation / decapsulation written from IEEE 802.11),
+           TinsModel/Crypto/SpecKdf.lean (PRF, pairwise key hierarchy, EAPOL-Key MIC, handshake grammar)
 -/
 namespace Tins.Props.C09
 open Tins.Crypto
@@ -430,5 +433,165 @@ theorem decrypt_keeps_capturer_drained (ip : InnerParser) (aes : Bytes → Block
 /-- non-vacuity of `handshake_complete`: concrete flag bytes of the four messages satisfy the classes -/
 example : isM1 ⟨1, 3, 2, [0x00, 0x8a], [], []⟩ = true ∧ isM2 ⟨1, 3, 2, [0x01, 0x0a], [], []⟩ = true ∧
     isM3 ⟨1, 3, 2, [0x13, 0xca], [], []⟩ = true ∧ isM4 ⟨1, 3, 2, [0x03, 0x0a], [], []⟩ = true := by decide
+
+/-! ## Key derivation (HMAC-SHA1, HMAC-MD5 and PBKDF2 are parameters) -/
+
+/-- **derive_keys_is_prf512.** For EVERY keyed hash `H` with 20-byte output in the place of HMAC-SHA1 and every pair of
+    MIC functions, every 32-octet PMK, all addresses `aa` / `spa` (equal length, stored in either order — a captured
+    handshake keeps min / max, not authenticator / supplicant), all nonces (equal length) and every message 4 of key
+    descriptor version 1 or 2, `SessionKeys::SessionKeys(handshake, pmk)`
+    * succeeds exactly when the Key MIC of message 4 — HMAC-MD5 for version 1, HMAC-SHA1-128 for version 2, over the
+      serialized frame with the Key MIC field zeroed, all 16 octets compared — verifies under the KCK, and then
+    * holds PRF-640(PMK, "Pairwise key expansion", Min(AA,SPA) ‖ Max(AA,SPA) ‖ Min(ANonce,SNonce) ‖ Max(ANonce,SNonce))
+      with Min / Max on the big-endian values (so also on equal prefixes), counter octets 0 … 3; its first 512 / 384
+      bits are the standard's PRF-512 / PRF-384, the temporal key used for CCMP is L(PTK, 256, 128), and the cipher is
+      CCMP exactly for version 2. -/
+theorem derive_keys_is_prf512 (H : Spec.Mac) (micf : Bool → Spec.Mac) (hH : ∀ k d, (H k d).length = 20)
+    (aa spa pmk : Bytes) (hlen : aa.length = spa.length) (hpmk : pmk.length = 32) (m1 m2 m3 m4 : Eapol)
+    (hn : m2.nonce.length = m3.nonce.length) (hs : Handshake) (hmsgs : hs.msgs = [m1, m2, m3, m4])
+    (haddr : (hs.a1 = aa ∧ hs.a2 = spa) ∨ (hs.a1 = spa ∧ hs.a2 = aa))
+    (hver : m4.keyDescriptor = 1 ∨ m4.keyDescriptor = 2) :
+    deriveKeys H micf hs pmk =
+      (Spec.sessionKeys H (micf false) (micf true) pmk aa spa m3.nonce m2.nonce m4.keyDescriptor.toNat m4.serialize
+        m4.mic).map (fun (ptk, ccmp) => ⟨ptk, ccmp⟩) ∧
+    ∀ k, deriveKeys H micf hs pmk = some k →
+      k.ptk = Spec.ptk H pmk aa spa m3.nonce m2.nonce 640 ∧
+      k.ptk.take 64 = Spec.ptk H pmk aa spa m3.nonce m2.nonce 512 ∧
+      k.ptk.take 48 = Spec.ptk H pmk aa spa m3.nonce m2.nonce 384 ∧
+      (k.ptk.drop 32).take 16 = Spec.tk (Spec.ptk H pmk aa spa m3.nonce m2.nonce 384) ∧
+      k.isCcmp = (m4.keyDescriptor == 2) := by
+  have hspec := deriveKeys_eq_spec H micf hH aa spa pmk hlen hpmk m1 m2 m3 m4 hn hs hmsgs haddr hver
+  refine ⟨hspec, ?_⟩
+  intro k hk
+  have hc := (deriveKeys_some_mic H micf hs pmk k m1 m2 m3 m4 hmsgs hk).1
+  rw [hspec] at hk
+  unfold Spec.sessionKeys at hk
+  simp only [] at hk
+  split at hk
+  · simp only [Option.map_some, Option.some.injEq] at hk
+    have hptk : k.ptk = Spec.ptk H pmk aa spa m3.nonce m2.nonce 640 := by rw [← hk]
+    have h48 : k.ptk.take 48 = Spec.ptk H pmk aa spa m3.nonce m2.nonce 384 := by
+      rw [hptk]; exact prf640_take48 H hH _ _ _
+    refine ⟨hptk, by rw [hptk]; exact prf640_take64 H _ _ _, h48, ?_, hc⟩
+    rw [← h48]
+    unfold Spec.tk
+    rw [List.drop_take, List.take_take]
+    rfl
+  · simp at hk
+
+/-- non-vacuity of `derive_keys_is_prf512`: two 6-octet addresses that agree on their first five octets, two 32-octet
+    nonces that agree on their first 31, a constant 20-octet "HMAC" -/
+example : ∃ (H : Spec.Mac) (aa spa n1 n2 : Bytes), (∀ k d, (H k d).length = 20) ∧ aa.length = spa.length ∧
+    n1.length = n2.length ∧ Spec.natMin aa spa = spa ∧ Spec.natMax n1 n2 = n1 ∧
+    (Spec.ptk H (List.replicate 32 7) aa spa n1 n2 512).length = 64 :=
+  ⟨fun _ _ => List.replicate 20 0, [1, 2, 3, 4, 5, 9], [1, 2, 3, 4, 5, 6], List.replicate 31 0 ++ [2], List.replicate 31 0 ++ [1],
+   fun _ _ => rfl, rfl, rfl, by decide, by decide, by decide⟩
+
+/-- key descriptor versions the specification does not cover (0, 3 … 7) are treated like version 1: accepted only
+    with an HMAC-MD5 MIC, cipher TKIP -/
+theorem derive_keys_other_versions (H : Spec.Mac) (micf : Bool → Spec.Mac) (hs : Handshake) (pmk : Bytes) (k : SessionKeys)
+    (m1 m2 m3 m4 : Eapol) (hmsgs : hs.msgs = [m1, m2, m3, m4]) (hv : m4.keyDescriptor ≠ 2)
+    (hd : deriveKeys H micf hs pmk = some k) :
+    k.isCcmp = false ∧ (micf false (k.ptk.take 16) (Spec.micZeroed m4.serialize)).take 16 = m4.mic :=
+  deriveKeys_other_versions H micf hs pmk k m1 m2 m3 m4 hmsgs hv hd
+
+/-- **pmk_is_pbkdf2.** `add_ap_data(psk, ssid)` registers PSK = PBKDF2(passphrase, ssid, 4096, 256 bits) for a network
+    name not yet registered, and keeps the first registration otherwise (`std::map::insert`); PBKDF2 is a parameter. -/
+theorem pmk_is_pbkdf2 (pbkdf2 : Bytes → Bytes → Nat → Nat → Bytes) (st : Wpa2State) (psk ssid : Bytes) :
+    (lookup st.pmks ssid = none →
+      lookup (st.addApDataPsk pbkdf2 psk ssid).pmks ssid = some (Spec.pskOf pbkdf2 psk ssid)) ∧
+    (∀ v, lookup st.pmks ssid = some v → lookup (st.addApDataPsk pbkdf2 psk ssid).pmks ssid = some v) := by
+  unfold Wpa2State.addApDataPsk Wpa2State.addApData insertIfAbsent supplicantPmk Spec.pskOf
+  constructor
+  · intro h; simp [h, lookup]
+  · intro v h; simp [h]
+
+example : lookup (({} : Wpa2State).addApDataPsk (fun p s _ n => (p ++ s).take n) [1, 2] [3]).pmks [3] = some [1, 2, 3] := by decide
+
+/-! ## Handshake capture over all valid histories -/
+
+/-- **libtins' message classes are the standard's**: the flag tests of `process_packet` select message 1 … 4 exactly
+    as 11.6.6.2-5 does on the Key Information field -/
+theorem message_classes_are_ieee (e : Eapol) : msgClass e = Spec.msgOfInfo (e.info0.toNat * 256 + e.info1.toNat) :=
+  msgClass_is_ieee e
+
+/-- **handshake_complete, all histories.** For every capturer state `c` consistent with a position `t` of pair `k` in
+    the grammar ( M1⁺ [ M2⁺ [ M3⁺ [ M4⁺ ] ] ] )* — in particular every state at all together with the start position
+    — and every history `xs` the grammar accepts (retransmissions of every message, attempts abandoned after message
+    1, 2 or 3 whatever their replay counters, any number of complete runs of the same pair, frames of other pairs and
+    EAPOL-Key frames that are none of the four messages interleaved anywhere), `RSNHandshakeCapturer` has handed over
+    for the pair exactly the completed attempts — [last M1, first M2, first M3, M4] each — in order, nothing else, and
+    its partial handshake is where the grammar says. -/
+theorem handshake_complete_all_histories (k : AddrPair) (xs : List (Hdr × Eapol)) (c : Capturer) (t t' : Track)
+    (done0 : List Handshake) (hc : ofPair k c.completed = done0 ++ t.completed.map (Attempt.handshake k))
+    (hp : phaseEntry t.phase (c.entry k)) (ht : t.runCap k xs = some t') :
+    ofPair k (c.run xs).completed = done0 ++ t'.completed.map (Attempt.handshake k) ∧
+    phaseEntry t'.phase ((c.run xs).entry k) :=
+  capturer_run_valid k xs c t t' done0 hc hp ht
+
+/-- from ANY capturer state: the start position fits every state -/
+theorem handshake_complete_from_any_state (k : AddrPair) (xs : List (Hdr × Eapol)) (c : Capturer) (t' : Track)
+    (ht : ({} : Track).runCap k xs = some t') :
+    ofPair k (c.run xs).completed = ofPair k c.completed ++ t'.completed.map (Attempt.handshake k) :=
+  (capturer_run_valid k xs c {} t' (ofPair k c.completed) (by simp) trivial ht).1
+
+/-- **keys_learned, all histories.** Let the decrypter know the access point `ap` (PSK / SSID registered and BSSID
+    announced or given), let its capturer be drained, and let `ps` be ANY history of frames — beacons, data frames,
+    non-data frames, EAPOL-Key frames of other pairs, and for pair `k` any sequence the grammar accepts: retransmitted
+    messages, abandoned attempts (also ones sharing a replay counter with a later attempt), re-handshakes of the same
+    pair.  Then every `decrypt` call returns, and afterwards the pair's key-table entry is what the completed attempts
+    make of the initial entry: the session keys of the LAST completed attempt whose MIC verifies under the network's
+    PMK; the access point stays known and the capturer stays drained. -/
+theorem keys_after_valid_history (ip : InnerParser) (aes : Bytes → BlockFn) (prf : Bytes → Bytes → Bytes)
+    (micf : Bool → Bytes → Bytes → Bytes) (k kk : AddrPair) (ap : Addr) (ssid pmk : Bytes) (ps : List Parsed)
+    (st : Wpa2State) (t' : Track) (hdr : st.cap.completed = []) (hap : lookup st.aps ap = some (ssid, pmk))
+    (ht : ({} : Track).runDec k kk ap ps = some t') (hq : ∀ p ∈ ps, p.castOk) :
+    ∃ st', st.run ip aes prf micf ps = some st' ∧
+      lookup st'.keys kk = expectedKeys prf micf k pmk (lookup st.keys kk) t'.completed ∧
+      st'.cap.completed = [] ∧ lookup st'.aps ap = some (ssid, pmk) ∧ phaseEntry t'.phase (st'.cap.entry k) := by
+  have inv : DecInv prf micf k kk ap ssid pmk (lookup st.keys kk) st {} := ⟨hdr, hap, rfl, trivial⟩
+  obtain ⟨st', h1, inv'⟩ := decrypter_run_valid ip aes prf micf k kk ap ssid pmk _ ps st {} t' inv ht hq
+  exact ⟨st', h1, inv'.keys, inv'.drained, inv'.apKnown, inv'.entry⟩
+
+/-- **… the PTK of the last completed attempt.** If the last attempt the history completes verifies, the entry holds
+    exactly its keys — whatever came before (earlier complete handshakes of the pair, abandoned attempts, …). -/
+theorem keys_are_last_attempt (ip : InnerParser) (aes : Bytes → BlockFn) (prf : Bytes → Bytes → Bytes)
+    (micf : Bool → Bytes → Bytes → Bytes) (k kk : AddrPair) (ap : Addr) (ssid pmk : Bytes) (ps : List Parsed)
+    (st : Wpa2State) (t' : Track) (hdr : st.cap.completed = []) (hap : lookup st.aps ap = some (ssid, pmk))
+    (ht : ({} : Track).runDec k kk ap ps = some t') (hq : ∀ p ∈ ps, p.castOk)
+    (cs : List Attempt) (last : Attempt) (hcs : t'.completed = cs ++ [last]) (key : SessionKeys)
+    (hd : deriveKeys prf micf (last.handshake k) pmk = some key) :
+    ∃ st', st.run ip aes prf micf ps = some st' ∧ lookup st'.keys kk = some key := by
+  obtain ⟨st', h1, h2, _⟩ := keys_after_valid_history ip aes prf micf k kk ap ssid pmk ps st t' hdr hap ht hq
+  exact ⟨st', h1, by rw [h2, hcs]; exact expectedKeys_last prf micf k pmk _ cs last key hd⟩
+
+/-- message 4 travels from the station to its access point (to-DS, addr3 = addr1): for such a frame the capturer's
+    pair is the key-table entry `extract_addr_pair` names and `find_ap` looks up addr1 — the side conditions the
+    history grammar puts on a message 4 hold for every real one -/
+theorem m4_pair_is_key_entry (h : Hdr) (h1 : h.toDS = true) (h2 : h.fromDS = false) (h3 : h.addr3 = h.addr1) :
+    pairOf h = extractAddrPair h ∧ findApAddr h = h.addr1 := pairOf_eq_extract h h1 h2 h3
+
+section HistoryExample
+private def exAp : Addr := [2, 0, 0, 0, 0, 1]
+private def exSta : Addr := [2, 0, 0, 0, 0, 9]
+private def exFrame (toAp : Bool) (info0 info1 nonceByte : UInt8) : Parsed :=
+  let hdr : Hdr := if toAp then { fc0 := 0x08, fc1 := 0x01, addr1 := exAp, addr2 := exSta, addr3 := exAp, sc0 := 0, sc1 := 0 }
+    else { fc0 := 0x08, fc1 := 0x02, addr1 := exSta, addr2 := exAp, addr3 := exAp, sc0 := 0, sc1 := 0 }
+  .data ⟨hdr, .snap ⟨0xaa, 0xaa, 3, 0, 0x888e, .eapol ⟨1, 3, 2, [info0, info1] ++ List.replicate 10 0 ++ [nonceByte], [], []⟩⟩⟩
+private def exM1 (n : UInt8) := exFrame false 0x00 0x8a n
+private def exM2 (n : UInt8) := exFrame true 0x01 0x0a n
+private def exM3 (n : UInt8) := exFrame false 0x13 0xca n
+private def exM4 := exFrame true 0x03 0x0a 0
+private def exHistory : List Parsed :=
+  [exM1 1, exM2 2,                                   -- an attempt abandoned after message 2
+   exM1 3, exM1 3, exM2 4, exM2 4, exM3 3, exM4,     -- a complete attempt with retransmissions
+   .beacon exAp (some [65]), exM4, .notData,           -- a beacon, message 4 again, something else
+   exM1 5, exM2 6, exM3 5, exM3 5, exM4]              -- the pair runs the handshake again
+
+/-- non-vacuity of `keys_after_valid_history` / `keys_are_last_attempt`: a history with an abandoned attempt, retransmitted
+    messages, an interleaved beacon and a re-handshake is accepted, and completes two attempts -/
+example : ((({} : Track).runDec (exAp, exSta) (exAp, exSta) exAp exHistory).map fun t => t.completed.length) = some 2 := by
+  decide
+end HistoryExample
 
 end Tins.Props.C09
